@@ -447,6 +447,7 @@ func TestVerifWireStream(t *testing.T) {
 	for _, sc := range in.Scripts {
 		var stream bytes.Buffer
 		var encs [][]byte
+		outOfStep := false
 		var vals []client.MessagePayload
 		st := wsSt{W: []wsMsg{}}
 		reader := &wsCounting{r: &stream}
@@ -475,6 +476,12 @@ func TestVerifWireStream(t *testing.T) {
 					ln.Skip = "nothing to read"
 					break
 				}
+				if outOfStep {
+					// an earlier read of this stream failed or consumed the wrong number of bytes: what follows is not a message
+					// boundary any more, and decoding arbitrary bytes in this process can ask for any amount of memory (F12b)
+					ln.Skip = "stream out of step after an earlier misread"
+					break
+				}
 				before := reader.n
 				want := st.W[st.R]
 				typ, p, res, det := wsDecode(uint64(want.T), reader)
@@ -486,6 +493,9 @@ func TestVerifWireStream(t *testing.T) {
 					if !ln.Eq {
 						ln.Act.C = "?"
 					}
+				}
+				if res != "ok" || reader.n-before != want.N {
+					outOfStep = true
 				}
 				st.R++
 				st.Pos = reader.n
